@@ -1377,3 +1377,161 @@ Proof.
   { intros H. destruct (P6 H) as (r & Fr & Er). simpl in Fr. injection Fr as <-. exact Er. }
   { intros H. destruct (P7 H) as (r & Fr & Er). simpl in Fr. injection Fr as <-. exact Er. }
 Qed.
+
+(* ================================================================== round trips (empty history) *)
+Lemma iota_ap n : iota n = ap 0 1 n.
+Proof. unfold ap. rewrite <- (map_id (iota n)) at 1. apply map_ext; intros; lia. Qed.
+
+Lemma iota_ap_unique n p q : 2 <= n -> iota n = ap p q n -> p = 0 /\ q = 1.
+Proof.
+  intros Hn E. rewrite iota_ap in E.
+  assert (E0 : nth (Z.to_nat 0) (ap 0 1 n) 0 = nth (Z.to_nat 0) (ap p q n) 0) by (rewrite E; reflexivity).
+  assert (E1 : nth (Z.to_nat 1) (ap 0 1 n) 0 = nth (Z.to_nat 1) (ap p q n) 0) by (rewrite E; reflexivity).
+  rewrite !nth_ap in E0, E1 by lia. lia.
+Qed.
+
+Lemma axis_full n r t0 A B C y :
+  1 <= n -> B == 0 ->
+  (2 <= n -> exists p q, iota n = ap p q n /\ A == r * inject_Z q /\
+                         C == t0 + r * inject_Z p + r / 2 - r * inject_Z q / 2) ->
+  (n = 1 -> A == r) ->
+  A * (inject_Z 0 + (1 # 2)) + B * y + C == inject_Z 0 * r + (t0 + r / 2) ->
+  A == r /\ C == t0.
+Proof.
+  intros Hn HB H2 H1 Hc.
+  destruct (Z_le_gt_dec 2 n) as [G|G].
+  - destruct (H2 G) as (p & q & E & RA & RC).
+    destruct (iota_ap_unique n p q G E) as (-> & ->).
+    split; [rewrite RA | rewrite RC]; change (inject_Z 1) with 1%Q; change (inject_Z 0) with 0%Q; field.
+  - assert (HA : A == r) by (apply H1; lia). split; auto.
+    rewrite HB, HA in Hc. change (inject_Z 0) with 0%Q in Hc.
+    assert (X : C == (0 * r + (t0 + r / 2)) - (r * (0 + (1 # 2)) + 0 * y)) by (rewrite <- Hc; ring).
+    rewrite X. field.
+Qed.
+
+Lemma axis_full_y n r t0 A B C x :
+  1 <= n -> B == 0 ->
+  (2 <= n -> exists p q, iota n = ap p q n /\ A == r * inject_Z q /\
+                         C == t0 + r * inject_Z p + r / 2 - r * inject_Z q / 2) ->
+  (n = 1 -> A == r) ->
+  B * x + A * (inject_Z 0 + (1 # 2)) + C == inject_Z 0 * r + (t0 + r / 2) ->
+  A == r /\ C == t0.
+Proof.
+  intros Hn HB H2 H1 Hc. apply (axis_full n r t0 A B C x); auto. rewrite <- Hc. ring.
+Qed.
+
+(** wrap, read back: an equal GeoBox (axis-aligned, any sign of the resolutions; a
+    single row/column needs the CRS coordinate, which carries the GeoTransform).
+    Shear below the [is_affine_st] tolerance is not written to the labels, hence
+    the recovered matrix is the wrapped one with b = d = 0. *)
+Lemma roundtrip_axis_aligned tol g nt nb nd name user x0 :
+  is_affine_st tol (g_aff g) = true -> 1 <= g_ny g -> 1 <= g_nx g ->
+  let t := g_aff g in
+  let yd := fst (crs_dims (g_crs g)) in
+  let xd := snd (crs_dims (g_crs g)) in
+  name_ok name yd xd -> clean_attrs user ->
+  ((2 <= g_ny g /\ 2 <= g_nx g) \/ (name <> None /\ g_crs g <> None)) ->
+  wrap_xr tol (ABox g) nt nb nd name user = Ok x0 ->
+  exists T,
+    locate_geo_info repaired tol x0 =
+      Ok (GeoState (Some (yd, xd)) (g_crs g) (Some T) (Some (ABox (GBox (g_ny g) (g_nx g) T (g_crs g))))) /\
+    aff_eq T (Aff (fa t) 0 (fc t) 0 (fe t) (ff t)).
+Proof.
+  intros Hst Hny Hnx t yd xd Hname Hclean Hfb Hw.
+  assert (Zy : zlen (iota (g_ny g)) = g_ny g) by (rewrite zlen_iota; lia).
+  assert (Zx : zlen (iota (g_nx g)) = g_nx g) by (rewrite zlen_iota; lia).
+  destruct (history_axis_aligned tol g nt nb nd name user [] x0 x0 (iota (g_ny g)) (iota (g_nx g)))
+    as (T & E & B1 & B2 & _ & C & X2 & Y2 & X1 & Y1); auto; try lia; try reflexivity.
+  { rewrite Zy, Zx. exact Hfb. }
+  rewrite Zy, Zx in *. fold t yd xd in E, C, X2, Y2, X1, Y1.
+  exists T. split; [exact E|].
+  destruct (C 0 0) as (Cx & Cy); try lia.
+  rewrite iota_ap in Cx, Cy. rewrite !nth_ap in Cx, Cy by lia.
+  unfold aff_apply, label in Cx, Cy; simpl in Cx, Cy.
+  destruct (axis_full (g_nx g) (fa t) (fc t) (fa T) (fb T) (fc T) (inject_Z 0 + (1 # 2))) as (RA & RC); auto.
+  destruct (axis_full_y (g_ny g) (fe t) (ff t) (fe T) (fd T) (ff T) (inject_Z 0 + (1 # 2))) as (RE & RF); auto.
+  unfold aff_eq; simpl. repeat split; auto.
+Qed.
+
+Lemma aff_mul_near_id t T :
+  fa T == 1 -> fb T == 0 -> fc T == 0 -> fd T == 0 -> fe T == 1 -> ff T == 0 -> aff_eq (aff_mul t T) t.
+Proof.
+  intros A B C D E F. unfold aff_eq, aff_mul; simpl. rewrite A, B, C, D, E, F. repeat split; ring.
+Qed.
+
+(** rotated / sheared GeoBox of any shape >= 1x1: the recovered matrix equals the wrapped one *)
+Lemma roundtrip_rotated tol g nt nb nd name user x0 :
+  is_affine_st tol (g_aff g) = false -> 1 <= g_ny g -> 1 <= g_nx g ->
+  let t := g_aff g in
+  let yd := fst (crs_dims (g_crs g)) in
+  let xd := snd (crs_dims (g_crs g)) in
+  let c := match name with Some _ => g_crs g | None => None end in
+  name_ok name yd xd -> clean_attrs user ->
+  wrap_xr tol (ABox g) nt nb nd name user = Ok x0 ->
+  exists T,
+    locate_geo_info repaired tol x0 =
+      Ok (GeoState (Some (yd, xd)) c (Some T) (Some (ABox (GBox (g_ny g) (g_nx g) T c)))) /\
+    aff_eq T t.
+Proof.
+  intros Hst Hny Hnx t yd xd c Hname Hclean Hw.
+  assert (Zy : zlen (iota (g_ny g)) = g_ny g) by (rewrite zlen_iota; lia).
+  assert (Zx : zlen (iota (g_nx g)) = g_nx g) by (rewrite zlen_iota; lia).
+  destruct (history_rotated tol g nt nb nd name user [] x0 x0 (iota (g_ny g)) (iota (g_nx g)))
+    as (T & E & B1 & B2 & _ & C & X2 & Y2 & X1 & Y1); auto; try lia; try reflexivity.
+  rewrite Zy, Zx in *. fold t yd xd c in E.
+  exists (aff_mul t T). split; [exact E|].
+  destruct (C 0 0) as (Cx & Cy & _); try lia.
+  rewrite iota_ap in Cx, Cy. rewrite !nth_ap in Cx, Cy by lia.
+  unfold aff_apply, pix_label in Cx, Cy; cbn [fst snd] in Cx, Cy.
+  assert (HX2 : 2 <= g_nx g -> exists p q, iota (g_nx g) = ap p q (g_nx g) /\ fa T == 1 * inject_Z q /\
+                                          fc T == 0 + 1 * inject_Z p + 1 / 2 - 1 * inject_Z q / 2).
+  { intros H. destruct (X2 H) as (p & q & E1 & R1 & R2). exists p, q. split; auto. split; [rewrite R1; ring | rewrite R2; field]. }
+  assert (HCx : fa T * (inject_Z 0 + (1 # 2)) + fb T * (inject_Z 0 + (1 # 2)) + fc T == inject_Z 0 * 1 + (0 + 1 / 2)).
+  { rewrite Cx. change (inject_Z (0 + 1 * 0)) with 0%Q. change (inject_Z 0) with 0%Q. field. }
+  destruct (axis_full (g_nx g) 1 0 (fa T) (fb T) (fc T) (inject_Z 0 + (1 # 2)) Hnx B1 HX2 X1 HCx) as (RA & RC).
+  assert (HY2 : 2 <= g_ny g -> exists p q, iota (g_ny g) = ap p q (g_ny g) /\ fe T == 1 * inject_Z q /\
+                                          ff T == 0 + 1 * inject_Z p + 1 / 2 - 1 * inject_Z q / 2).
+  { intros H. destruct (Y2 H) as (p & q & E1 & R1 & R2). exists p, q. split; auto. split; [rewrite R1; ring | rewrite R2; field]. }
+  assert (HCy : fd T * (inject_Z 0 + (1 # 2)) + fe T * (inject_Z 0 + (1 # 2)) + ff T == inject_Z 0 * 1 + (0 + 1 / 2)).
+  { rewrite Cy. change (inject_Z (0 + 1 * 0)) with 0%Q. change (inject_Z 0) with 0%Q. field. }
+  destruct (axis_full_y (g_ny g) 1 0 (fe T) (fd T) (ff T) (inject_Z 0 + (1 # 2)) Hny B2 HY2 Y1 HCy) as (RE & RF).
+  apply aff_mul_near_id; auto.
+Qed.
+
+(** GCP based GeoBox: the recovered GCPGeoBox carries the GCPs in the pixel frame of the
+    wrapped GeoBox and the identity as its own transform *)
+Lemma roundtrip_gcp tol ny nx a pts crs ai nt nb nd n user x0 :
+  aff_inv a = Some ai -> 1 <= ny -> 1 <= nx ->
+  let yd := fst (crs_dims (Some crs)) in
+  let xd := snd (crs_dims (Some crs)) in
+  name_ok (Some n) yd xd -> clean_attrs user ->
+  wrap_xr tol (AGcp ny nx a pts (Some crs)) nt nb nd (Some n) user = Ok x0 ->
+  exists T,
+    locate_geo_info repaired tol x0 =
+      Ok (GeoState (Some (yd, xd)) (Some crs) (Some T) (Some (AGcp ny nx T (gcps_of ai pts) (Some crs)))) /\
+    aff_eq T aff_id.
+Proof.
+  intros Hi Hny Hnx yd xd Hname Hclean Hw.
+  assert (Zy : zlen (iota ny) = ny) by (rewrite zlen_iota; lia).
+  assert (Zx : zlen (iota nx) = nx) by (rewrite zlen_iota; lia).
+  destruct (history_gcp tol ny nx a pts crs ai nt nb nd n user [] x0 x0 (iota ny) (iota nx))
+    as (T & E & B1 & B2 & C & X2 & Y2 & X1 & Y1); auto; try lia; try reflexivity.
+  rewrite Zy, Zx in *. fold yd xd in E.
+  exists T. split; [exact E|].
+  destruct (C 0 0) as (Cx & Cy); try lia.
+  rewrite iota_ap in Cx, Cy. rewrite !nth_ap in Cx, Cy by lia.
+  unfold aff_apply in Cx, Cy; cbn [fst snd] in Cx, Cy.
+  assert (HX2 : 2 <= nx -> exists p q, iota nx = ap p q nx /\ fa T == 1 * inject_Z q /\
+                                          fc T == 0 + 1 * inject_Z p + 1 / 2 - 1 * inject_Z q / 2).
+  { intros H. destruct (X2 H) as (p & q & E1 & R1 & R2). exists p, q. split; auto. split; [rewrite R1; ring | rewrite R2; field]. }
+  assert (HCx : fa T * (inject_Z 0 + (1 # 2)) + fb T * (inject_Z 0 + (1 # 2)) + fc T == inject_Z 0 * 1 + (0 + 1 / 2)).
+  { rewrite Cx. change (inject_Z (0 + 1 * 0)) with 0%Q. change (inject_Z 0) with 0%Q. field. }
+  destruct (axis_full nx 1 0 (fa T) (fb T) (fc T) (inject_Z 0 + (1 # 2)) Hnx B1 HX2 X1 HCx) as (RA & RC).
+  assert (HY2 : 2 <= ny -> exists p q, iota ny = ap p q ny /\ fe T == 1 * inject_Z q /\
+                                          ff T == 0 + 1 * inject_Z p + 1 / 2 - 1 * inject_Z q / 2).
+  { intros H. destruct (Y2 H) as (p & q & E1 & R1 & R2). exists p, q. split; auto. split; [rewrite R1; ring | rewrite R2; field]. }
+  assert (HCy : fd T * (inject_Z 0 + (1 # 2)) + fe T * (inject_Z 0 + (1 # 2)) + ff T == inject_Z 0 * 1 + (0 + 1 / 2)).
+  { rewrite Cy. change (inject_Z (0 + 1 * 0)) with 0%Q. change (inject_Z 0) with 0%Q. field. }
+  destruct (axis_full_y ny 1 0 (fe T) (fd T) (ff T) (inject_Z 0 + (1 # 2)) Hny B2 HY2 Y1 HCy) as (RE & RF).
+  unfold aff_eq, aff_id; simpl. repeat split; auto.
+Qed.
